@@ -8,6 +8,8 @@ writer's private counters die with the object, the file survives."""
 import json
 import pathlib
 
+import warnings
+
 import numpy as np
 
 from dst import gen, seeds, seams
@@ -20,7 +22,7 @@ RULE = ("one evaluation = one seeded writer history (<= 5 sessions, <= 30 operat
         "verify point; non-trivial = at least one state-changing write and one oracle comparison; distinct = distinct "
         "event-log digests (operation sequence + data hashes + results)")
 STATE_MEASURE = "distinct (mode, session index, feature kind, part length relative to chunk length, nan pattern) tuples"
-PROBES = ["remainder_after_full_chunk", "append_across_sessions", "replace_existing", "reset_nonempty",
+PROBES = ["side_file_with_other_event_shape", "first_access_with_lossy_dtype", "remainder_after_full_chunk", "append_across_sessions", "replace_existing", "reset_nonempty",
           "log_append_longer_than_first", "log_multibyte", "bare_close", "h5file_target", "contour_across_sessions",
           "rejected_call", "table_with_attrs", "trace_subset_replace", "part_equals_chunk", "single_event_part", "integer_table"]
 COMPONENTS = {
@@ -56,7 +58,11 @@ def make_trace(seed, tier):
         feats = [r.choice(SCALAR_POOL + NONSCALAR_POOL)]
     return {
         "knobs": {"chunk_bytes": r.choice(CHUNK_KNOBS), "shape": r.choice([[8, 10], [6, 12], [5, 7]]),
-                  "f32": r.random() < 0.25},
+                  "f32": r.random() < 0.25,
+                  # another file written earlier in the same process holds the user-shaped feature with this event shape
+                  "side_shape": r.choice([None, None, [4, 3], [12], [2, 6], [3, 4]]),
+                  # the first access of scalar features of the reopened file asks for a lossy dtype
+                  "dtype_first": r.random() < 0.3},
         "feats": feats,
         "max_ops": r.choice([6, 12, 20, 30]),
         "ops": None,
@@ -718,6 +724,12 @@ class Machine:
                 if not np.array_equal(ds["trace"][kk][:], v):
                     ctx.violation("C01.feature.trace", f"trace {kk} differs via dclab", sig={"feat": "trace"})
             return
+        if self.t["knobs"].get("dtype_first") and f not in NONSCALAR_POOL and f != "index":
+            # (the lossy conversion is the caller's; what the dataset delivers afterwards must be the stored data)
+            with warnings.catch_warnings():
+                warnings.simplefilter("ignore")
+                np.asarray(ds[f], dtype=np.float32 if np.asarray(exp).dtype.kind == "f" else np.uint8)
+            ctx.probe("first_access_with_lossy_dtype")
         got = ds[f][:]
         got = np.asarray(got)
         if f == "index":
@@ -737,6 +749,17 @@ def run(trace, ctx):
     seams.set_knob_chunk_bytes(trace["knobs"]["chunk_bytes"])
     if "tmp_shaped" in trace["feats"]:
         dclab.register_temporary_feature("tmp_shaped", is_scalar=False)
+        side = trace["knobs"].get("side_shape")
+        if side:
+            # (temporary features carry no shape of their own: each file may hold events of another shape)
+            from dclab.rtdc_dataset.writer import RTDCWriter
+            sdata = seeds.np_rng(ctx.seed, "side").normal(size=[3] + list(side))
+            with ctx.sut("C01.side_file"):
+                with RTDCWriter(ctx.scratch / "side.rtdc", mode="reset") as hw:
+                    hw.store_metadata({"setup": {"software version": "ShapeIn 2.2.2.4"}, "experiment": {"sample": "s", "run index": 1}})
+                    hw.store_feature("deform", np.linspace(0.01, 0.02, 3))
+                    hw.store_feature("tmp_shaped", sdata)
+            ctx.probe("side_file_with_other_event_shape")
     mach = Machine(trace, ctx, ctx.scratch / "w.rtdc")
     while True:
         op = ctx.next_op(mach.gen_op, max_ops=trace.get("max_ops", 20))
